@@ -21,20 +21,22 @@ SpecL6 == Bounded(6)
 SpecL7 == Bounded(7)
 View == <<root, contents>>
 ViewFull == <<root, db, contents, past>>
+\* observables as operators of a VALUE (see MC_Hexary.tla: nothing recursive is evaluated under a prime)
+Cur == [root |-> root, db |-> db, contents |-> contents, past |-> past]
 LookJ(c) == {<<k, JV(ModelVal(c, k))>> : k \in LookupKeys}
-Obs == [root |-> JB(root), look |-> LookJ(contents), db |-> {JB(n) : n \in db},
-        pasts |-> {[r |-> JB(p.r), look |-> LookJ(p.c)] : p \in past},
-        nodes |-> {JB(n) : n \in AllSub(root)}]
-Emit == PrintT(ToJson([h |-> hist', st |-> Obs']))
-EmitSt == PrintT(ToJson([h |-> hist, st |-> Obs]))
+ObsOf(s) == [root |-> JB(s.root), look |-> LookJ(s.contents), db |-> {JB(n) : n \in s.db},
+             pasts |-> {[r |-> JB(p.r), look |-> LookJ(p.c)] : p \in s.past},
+             nodes |-> {JB(n) : n \in AllSub(s.root)}]
+Emit == PrintT(ToJson([h |-> hist', st |-> ObsOf(Cur')]))
+EmitSt == PrintT(ToJson([h |-> hist, st |-> ObsOf(Cur)]))
 \* C13 tables, per state
-BrTable == {LET b == BranchOf(root, k) IN
-            [k |-> k, ok |-> b.ok, b |-> [i \in 1..Len(b.b) |-> JB(b.b[i])], v |-> JV(ModelVal(contents, k)),
-             stored |-> ModelVal(contents, k) # NoVal, conflict |-> Conflict(contents, k)] : k \in LookupKeys}
-ExTable == {[p |-> p, e |-> \E k \in Live(contents) : StartsWith(k, p)] : p \in LookupKeys \cup {<<>>}}
-WitTable == {LET w == WitnessOf(root, p) IN
-             [p |-> p, ok |-> w.ok, w |-> [i \in 1..Len(w.b) |-> JB(w.b[i])],
-              past |-> \E k \in Live(contents) : StartsWith(p, k) /\ p # k] : p \in LookupKeys \cup {<<>>}}
-Obs13 == [br |-> BrTable, ex |-> ExTable, wit |-> WitTable] @@ Obs
-EmitSt13 == PrintT(ToJson([h |-> hist, st |-> Obs13]))
+BrTableOf(s) == {LET b == BranchOf(s.root, k) IN
+                 [k |-> k, ok |-> b.ok, b |-> [i \in 1..Len(b.b) |-> JB(b.b[i])], v |-> JV(ModelVal(s.contents, k)),
+                  stored |-> ModelVal(s.contents, k) # NoVal, conflict |-> Conflict(s.contents, k)] : k \in LookupKeys}
+ExTableOf(s) == {[p |-> p, e |-> \E k \in Live(s.contents) : StartsWith(k, p)] : p \in LookupKeys \cup {<<>>}}
+WitTableOf(s) == {LET w == WitnessOf(s.root, p) IN
+                  [p |-> p, ok |-> w.ok, w |-> [i \in 1..Len(w.b) |-> JB(w.b[i])],
+                   past |-> \E k \in Live(s.contents) : StartsWith(p, k) /\ p # k] : p \in LookupKeys \cup {<<>>}}
+Obs13Of(s) == [br |-> BrTableOf(s), ex |-> ExTableOf(s), wit |-> WitTableOf(s)] @@ ObsOf(s)
+EmitSt13 == PrintT(ToJson([h |-> hist, st |-> Obs13Of(Cur)]))
 =============================================================================
